@@ -1,6 +1,8 @@
 pub mod c01;
 pub mod c02;
 pub mod c03;
+pub mod c04;
+pub mod c05;
 pub mod c06;
 pub mod c07;
 pub mod c10;
@@ -20,6 +22,8 @@ pub fn run(id: &str, tier: Tier) -> Option<i32> {
         "C01" => c01::run(tier),
         "C02" => c02::run(tier),
         "C03" => c03::run(tier),
+        "C04" => c04::run(tier),
+        "C05" => c05::run(tier),
         "C06" => c06::run(tier),
         "C07" => c07::run(tier),
         "C10" => c10::run(tier),
@@ -74,6 +78,13 @@ pub fn replay(property: &str, part: &str, case: &serde_json::Value) -> Option<Re
         ("C14", "verifier-names") => replay_part(&c14::VerifierNames, case, 1),
         ("C10", "admission-history") => replay_part(&c10::Histories, case, 1),
         ("C06", "hostile-scripts") => replay_part(&c06::Scripts, case, 1),
+        ("C04", "driver-histories") => replay_part(&c04::DriverHistories, case, 1),
+        ("C04", "network-histories") => replay_part(&c04::NetworkHistories, case, 1),
+        ("C04", "thread-stress") => replay_part(&c04::ThreadStress, case, 10),
+        ("C05", "tie-break") => replay_part(&c05::Decision, case, 1),
+        ("C05", "both-sides") => replay_part(&c05::BothSidesPart, case, 1),
+        ("C05", "networks-realtime") => replay_part(&c05::NetworksRealTime, case, 2),
+        ("C05", "networks") => replay_part(&c05::Networks, case, 1),
         _ => return None,
     })
 }
